@@ -265,6 +265,20 @@ func TestVerifC11Inject(t *testing.T) {
 		}
 		out.emit(rec)
 	}
+	// the same messages as binary frames (a client may send JSON in binary messages): injection adds headers, it does not
+	// change what kind of message it is
+	for j, m := range msgs {
+		body, _ := json.Marshal([]map[string]interface{}{verifClientMsg(id, verifWSMsg{Type: websocket.BinaryMessage, Data: []byte(m)}, 1)})
+		dr := shim.call("data", body, hdrs, 10*time.Second)
+		ok := bc.waitReceived(len(msgs)+j+1, 3*time.Second)
+		rec := map[string]interface{}{"kind": "inject", "sent": m, "sent_type": websocket.BinaryMessage, "status": dr.Status, "delivered": ok, "request_headers": hdrs}
+		if ok {
+			got := bc.received()[len(msgs)+j]
+			rec["received"] = string(got.Data)
+			rec["type"] = got.Type
+		}
+		out.emit(rec)
+	}
 	shim.call("close", verifSessionBody(id), nil, 5*time.Second)
 }
 
